@@ -260,6 +260,11 @@ func runC05(c *Ctx) {
 	for i := 0; i < c.Pick(3000, 60000); i++ {
 		docs = append(docs, g.next())
 	}
+	// what the other generator modules enumerate: table candidates (escaped pipes in cells
+	// and code spans are where the table transformer splices), CMGen / InlineGen documents
+	gen := generatedDocs(c, c.Pick(16000, 200000))
+	ev.Set("generated_documents", len(gen))
+	docs = append(docs, gen...)
 	// footnote orders, tab-indented fences, setext fallbacks, tables: where splices happen
 	docs = append(docs, "one[^x] two[^z] three[^y]\n\n[^x]: X\n\n[^y]: Y\n\n[^z]: Z\n", "a[^3] b[^1] c[^2] d[^4]\n\n[^1]: 1\n[^2]: 2\n[^3]: 3\n[^4]: 4\n",
 		">\t```c\nx\n", "- a\n\n\t```c\n\tx\n\t```\n", ">\t~~~ go\n> x\n", "- Foo\n--\n", "Foo\n---\n", "| a |\n|---|\n| b |\n", "t\n: d\n: e\n")
